@@ -73,8 +73,15 @@ def fmt_atom(a):
 
 
 def udiv_poly(p, c):
-    """floor(p / c) as a polynomial atom (exact when p is constant)"""
+    """floor(p / c) as a polynomial atom (exact when p is constant).  floor((P + a*c + r)/c) = floor((P + r)/c) + a: the constant term is
+    reduced to [0, c) so that equal values get equal atoms"""
     if p.is_const(): return Poly.const(int(p.c()) // c) if p.c().denominator == 1 else Poly.const(p.c() / c)
+    k0 = p.c()
+    if k0.denominator == 1 and all(v.denominator == 1 for v in p.t.values()):
+        a = int(k0) // c
+        if a != 0:
+            p = p - Poly.const(a * c)
+            return Poly.atom(("udiv", p.key(), c, repr(p))) + Poly.const(a)
     return Poly.atom(("udiv", p.key(), c, repr(p)))
 
 
@@ -144,6 +151,20 @@ class UB:
         self.memos = {frozenset(): self.memo}; self.be_test = {}
         self.arg_poly = {}           # k -> Poly (actuals when analysing a callee in context)
 
+    def pin_args(self, consts):
+        """analyse the function for fixed values of some integer parameters (e.g. one encoding mode): branches decided by them are pruned"""
+        self.iv = Intervals(self.fn, dict(consts), self.fi)
+        self.dead = self.iv.dead_edges(); reach = set(); work = [self.fn.entry]
+        while work:
+            b = work.pop()
+            if b.id in reach: continue
+            reach.add(b.id)
+            for sx in b.succs:
+                if (b.id, sx.id) not in self.dead: work.append(sx)
+        self.unreach = {b.id for b in self.fn.blocks} - reach
+        for k, v in consts.items(): self.arg_poly[k] = Poly.const(v)
+        return self
+
     def arg_atom(self, k): return ("arg", k, self.fn.argnames.get(k, "arg%d" % k))
 
     def at(self, block):
@@ -180,6 +201,9 @@ class UB:
         if o["v"] in self.sub: return None
         i = self.fn.imap[o["v"]]; E = lambda n: self.exact(i.ops[n], depth + 1)
         if i.op in ("zext", "freeze"): return E(0)
+        if i.op == "sext":
+            a = self.iv.ival(i.ops[0]); sb = type_bits(i.ops[0]["t"]) or 64
+            return E(0) if a[0] >= 0 and a[1] != INF and a[1] < (1 << (sb - 1)) else None
         if i.op == "trunc":
             e = E(0); hi = self.iv.ival(i.ops[0])[1]
             return e if e is not None and hi != INF and hi < (1 << (type_bits(i["t"]) or 64)) else None
@@ -196,6 +220,22 @@ class UB:
             if d is not None:
                 init, B = d; e = self.exact(init, depth + 1)
                 if e is not None: return urem_poly(e, B)
+        if i.op == "select" and i.ops[0]["k"] == "inst":
+            ci = self.fn.imap[i.ops[0]["v"]]
+            if ci.op == "icmp" and ci.ops[1]["k"] == "int" and int(ci.ops[1]["v"]) == 0 and ci["pred"] in ("ugt", "ne", "eq"):
+                e = self.exact(ci.ops[0], depth + 1); a = E(1); b = E(2)
+                if e is not None and a is not None and b is not None:
+                    pv, zv = (b, a) if ci["pred"] == "eq" else (a, b)
+                    return zv + ind_poly(e) * (pv - zv)
+        if i.op == "phi" and i.block.id in self.loops and self.outside(i.block.id):
+            # a counter stepped by a constant on every iteration: initial value + exact number of iterations * step
+            h = i.block.id; body = self.loops[h]
+            back = [inc["v"] for inc in i["incoming"] if inc["b"] in body]; out = [inc["v"] for inc in i["incoming"] if inc["b"] not in body]
+            if len(back) == 1 and len(out) == 1 and back[0]["k"] == "inst":
+                bi = self.fn.imap[back[0]["v"]]
+                if bi.op == "add" and bi.ops[1]["k"] == "int" and bi.ops[0]["k"] == "inst" and bi.ops[0]["v"] == i.id and all(self.fn.dominates(bi.block.id, l.id) for l in self.fn.bmap[h].preds if l.id in body):
+                    tr = self.exact_trips(h); e0 = self.exact(out[0], depth + 1)
+                    if tr is not None and e0 is not None: return e0 + tr * Poly.const(int(bi.ops[1]["sv"]))
         if i.op == "phi" and i.block.id not in self.loops and len(i["incoming"]) == 2:
             g = self.guard_of_join(i, i["incoming"])
             if g is not None:
@@ -212,7 +252,13 @@ class UB:
                     e = self.exact(i.ops[k], depth + 1)
                     if e is None: return None
                     sub.exact_args[k] = e
-                return sub.exact_return()
+                r = sub.exact_return()
+                if r is not None: return r
+                # a side-effect-free function of exactly known arguments: an uninterpreted, exact atom
+                sm = self.w.pts.summ.get(g.name)
+                if sm is not None and not sm.mod and not sm.reads and all(not i.ops[k]["t"].endswith("*") for k in range(i["nargs"])):
+                    import re as _re
+                    return Poly.atom(("call", _re.sub(r"\.\d+$", "", g.name), tuple(sub.exact_args[k].key() for k in range(i["nargs"]))))   # internal copies of one inline function (name.N after linking) are the same function
         return None
 
     def exact_return(self):
@@ -232,6 +278,30 @@ class UB:
                 if e is None or (out is not None and e != out): return None
                 out = e
         return out
+
+    def exact_trips(self, h):
+        """exact number of iterations of loop h when its only exit is the header test of a canonical counter / decrement loop"""
+        fn = self.fn; body = self.loops[h]
+        for bid in body:
+            if bid != h and any(sx.id not in body for sx in fn.bmap[bid].succs): return None
+        t = fn.bmap[h].term
+        if t.op != "br" or len(t.ops) != 3 or t.ops[0]["k"] != "inst": return None
+        ci = fn.imap[t.ops[0]["v"]]
+        if ci.op != "icmp": return None
+        if ci.ops[0]["k"] == "inst" and fn.imap[ci.ops[0]["v"]].op == "phi" and fn.imap[ci.ops[0]["v"]].block.id == h:
+            d = self.decrement_loop(fn.imap[ci.ops[0]["v"]])
+            if d is not None:
+                e = self.exact(d[0])
+                return udiv_poly(e, d[1]) if e is not None else None
+        if ci["pred"] in ("ult", "slt") and t.ops[2]["v"] in body:
+            ph, s0 = self.counter(ci.ops[0], h, body)
+            if ph is not None:
+                init = [inc["v"] for inc in ph["incoming"] if inc["b"] not in body][0]
+                saved = self.site; self.site = fn.bmap[h]
+                try: eN = self.exact(ci.ops[1]); eI = self.exact(init)
+                finally: self.site = saved
+                if eN is not None and eI is not None: return udiv_poly(eN - eI + Poly.const(s0 - 1), s0)
+        return None
 
     def decrement_loop(self, ph):
         """ph is the header phi of `while (x >= B) { ...; x -= B; }` (only exit: the header test): returns (initial operand, B)"""
@@ -278,7 +348,7 @@ class UB:
         if k != "inst": raise Unbounded("operand %r" % (o,))
         vid = o["v"]
         if vid in self.sub: return self.sub[vid]
-        if vid in self.memo: return self.memo[vid]
+        if not self.sub and vid in self.memo: return self.memo[vid]
         bk = (vid, tuple(sorted(self.sub)))
         if bk in self.busy: raise Unbounded("cyclic dependency at %%%s" % vid)
         self.busy.add(bk)
@@ -315,7 +385,10 @@ class UB:
             a = A(0)
             if a.is_const() and a.c() > tmax: return Poly.const(tmax)
             return best(a)
-        if op == "add": return best(A(0) + A(1))
+        if op == "add":
+            bc = self.bit_cursor(i)
+            if bc is not None: return best(bc)
+            return best(A(0) + A(1))
         if op == "sub": return best(A(0) - self.lb(i.ops[1]))
         if op == "mul":
             a, b = A(0), A(1)
@@ -387,7 +460,11 @@ class UB:
                 return Poly.atom(("field",) + tuple(tok[1][0]) + (tok[1][1], tok[1][2]))
             if bits < 64: return Poly.const(tmax)
             raise Unbounded("load of an unknown 64-bit value at line %s" % i.line)
-        if op == "call": return self.call_ub(i)
+        if op == "call":
+            if self.q and self.depth == 0:
+                e = self.exact({"k": "inst", "v": i.id, "t": i["t"]})
+                if e is not None and any(isinstance(a, tuple) and a[0] == "call" for a in e.atoms()): return e
+            return self.call_ub(i)
         if op == "phi": return self.phi_ub(i)
         if op == "extractvalue" and cu is not None: return Poly.const(cu)
         if op == "ptrtoint":
@@ -768,7 +845,7 @@ class UB:
         if o["k"] != "inst": raise Unbounded("pointer operand %r" % (o,))
         if o["v"] in self.sub: return self.subroot[o["v"]], self.sub[o["v"]]
         key = ("p", o["v"])
-        if key in self.memo: return self.memo[key]
+        if not self.sub and key in self.memo: return self.memo[key]
         bk = key + (tuple(sorted(self.sub)),)
         if bk in self.busy: raise Unbounded("cyclic pointer")
         self.busy.add(bk)
@@ -826,6 +903,31 @@ class UB:
             if src is not None: return self.ptr_ub(src)
         raise Unbounded("pointer from %s at line %s" % (i.op, i.line))
 
+
+    def bit_cursor(self, i):
+        """floor(X/c) + floor((Y + X mod c)/c)  ==  floor((X + Y)/c): the byte index of bit X + Y written through a (byte, bit-in-byte) pair"""
+        fn = self.fn
+        def inst(o):
+            o = self.strip(o)
+            return fn.imap[o["v"]] if o["k"] == "inst" else None
+        def cdiv(x):
+            if x is None: return None
+            if x.op == "udiv" and x.ops[1]["k"] == "int": return int(x.ops[1]["v"])
+            if x.op == "lshr" and x.ops[1]["k"] == "int": return 1 << int(x.ops[1]["v"])
+            return None
+        for a, b in ((inst(i.ops[0]), inst(i.ops[1])), (inst(i.ops[1]), inst(i.ops[0]))):
+            c = cdiv(a)
+            if c is None or cdiv(b) != c: continue
+            X = self.strip(a.ops[0]); inner = inst(b.ops[0])
+            if inner is None or inner.op != "add": continue
+            for y, r in ((inner.ops[0], inst(inner.ops[1])), (inner.ops[1], inst(inner.ops[0]))):
+                if r is None: continue
+                isrem = (r.op == "urem" and r.ops[1]["k"] == "int" and int(r.ops[1]["v"]) == c) or (r.op == "and" and r.ops[1]["k"] == "int" and int(r.ops[1]["v"]) == c - 1)
+                if not isrem: continue
+                rx = self.strip(r.ops[0])
+                if (rx["k"], rx.get("v")) != (X["k"], X.get("v")): continue
+                return udiv_poly(self.ub(X) + self.ub(y), c)
+        return None
 
     def tight(self, o):
         """the exact value when it is expressible (q-mode), else an upper bound"""
@@ -968,7 +1070,7 @@ class UB:
                 if any(c2 == ck and (q - p).nonneg_coeffs() for q, c2, _ in worst): continue
                 worst = [(q, c2, cd) for q, c2, cd in worst if not (c2 == ck and (p - q).nonneg_coeffs())] + [(p, ck, cond)]
         for b in fn.blocks:
-            if b.id not in live: continue
+            if b.id not in live or b.id in self.unreach: continue
             for i in b.insts:
                 if i.op == "store":
                     if self.root_of(i.ops[1]) != root: continue
@@ -991,7 +1093,7 @@ class UB:
                             w = B.summary(c, k, "w") if c else ("inf", "indirect call")
                             if w[0] == "none": continue
                             def callsite():
-                                cands = []
+                                cands = []; callee_max = None
                                 for alt in (w[1] if w[0] == "alts" else [w]):
                                     if alt[0] == "const": cands.append(Poly.const(alt[1]))
                                     elif alt[0] == "arg":
@@ -1005,18 +1107,25 @@ class UB:
                                             if not i.ops[j]["t"].endswith("*"):
                                                 try: sub.arg_poly[j] = self.ub(i.ops[j])
                                                 except Unbounded: pass
+                                        sub.q = self.q
                                         e, _ = sub.extent(B, ("arg", k), depth + 1)
-                                        if e:
-                                            m = e[0][0]
-                                            for q, _c in e[1:]: m = pmax(m, q)
-                                            cands.append(m)
+                                        if e: callee_max = [q for q, _c in e]
                                     except Unbounded: pass
-                                if not cands: raise Unbounded("extent of %s through its argument %d (line %s): %s" % (c, k, i.line, w[1] if w[0] == "inf" else w))
-                                best = cands[0]
+                                base = self.ptr_ub(a)[1]
+                                best = cands[0] if cands else None
                                 for cnd in cands[1:]:
                                     if (best - cnd).nonneg_coeffs(): best = cnd
-                                return self.ptr_ub(a)[1] + best
-                            note(self.cases_at(b, callsite))
+                                if callee_max is not None:
+                                    # the callee's own maxima (each must be covered), unless the best closed-form summary is at most all of them
+                                    if best is not None and all((q - best).nonneg_coeffs() for q in callee_max): return [base + best]
+                                    return [base + q for q in callee_max]
+                                if best is None: raise Unbounded("extent of %s through its argument %d (line %s): %s" % (c, k, i.line, w[1] if w[0] == "inf" else w))
+                                return [base + best]
+                            for alt_i in range(8):
+                                got = self.cases_at(b, lambda: (lambda r: r[alt_i] if alt_i < len(r) else None)(callsite()))
+                                got = [(p_, c_) for p_, c_ in got if p_ is not None]
+                                if not got: break
+                                note(got)
         self.at(fn.entry)
         return [(p, cd) for p, _k, cd in worst], n
 
@@ -1034,7 +1143,7 @@ def residue_eval(p, n_atom, M, r, qpos):
         if a == n_atom: return nval
         if isinstance(a, tuple) and a[0] in ("udiv", "urem", "ind"):
             inner = ev(poly_of_key(a[1])); ab = lin(inner)
-            if ab is None: raise Unbounded("residue evaluation: %s over a non-linear argument" % a[0])
+            if ab is None: return Poly.atom(a)          # depends on other quantities too: kept as an opaque non-negative atom
             aa, bb = ab
             if a[0] == "ind":
                 if aa == 0: return Poly.const(1 if bb > 0 else 0)
